@@ -772,6 +772,9 @@ class IntermediateCodeGen(AbstractCodeGen):
                 fakeSyms.append(idxName)
                 self.fakeidx += 1
 
+            else:
+                idxName = self.transOpers(idxName)
+
             index = OrderedDict()
             index['module'] = self._importMap.get(idxName, self.moduleName[0])
             index['object'] = idxName
